@@ -40,11 +40,12 @@ import FluteModel.Lemmas.RecvWhole
       `block_length_eq_rfc` needs L < 2^48; an overflow would need L > 2^64 - E and an SBN near N-1, i.e. B ~ 2^32, E ~ 2^16, dev
       profile only).  Hence a NAMED ASSUMPTION (props.d/C04.json); removing it needs a u64-wide C07 or a range check in `attach_fdt`.
   NOT COVERED (by construction of the owners' models, stated so that it is not hidden):
-    * the object inside an `FdtReceiver` (TOI 0) is recv's small `Mini` object, not `ObjRecv`;
+    * (closed since) the object inside an `FdtReceiver` (TOI 0) is an `ObjRecv` object too (`Full.push0`, orecv's adapter
+      `Full.fdtEntry0`); `hasFault` and the invariant cover it (`reachable_fdt_objects_healthy`);
     * `Full.params` decodes No-Code only (other codecs "nothing decodable", content encodings answer `Err`): third-party codec
       panics (review H1/H2: raptorq base.rs:137, decoder.rs:400) are outside the model - findings, not theorems;
     * `MultiReceiver::push` on top: agent tsi's `Flute.Props.C04.Multi.multi_push_total` gives the session-level statement for any
-      `ObjIface` (instantiated below); the object-fault invariant is not threaded through the MultiRecv table.
+      `ObjIface` (instantiated below); the object-fault invariant is threaded through the MultiRecv table in Props/C04MultiWhole.lean.
 -/
 namespace Flute.Props.C04.Whole
 open Flute Flute.Recv Flute.Recv.AllObj Flute.Recv.Whole
@@ -68,7 +69,7 @@ theorem push_data_total (X : Interfaces) (tsi : Nat) (cfg : Config) (hc : cfg.ma
   refine ⟨s', r, evs, ?_, hr⟩
   unfold pushDataWhole
   rw [h]
-  simp only [hasFault_false X s' hw'.objs, Bool.false_eq_true, if_false]
+  simp only [hasFault_false X s' hw'.objs hw'.fobjs, Bool.false_eq_true, if_false]
 
 /-- the same for `Receiver::cleanup` -/
 theorem cleanup_total (X : Interfaces) (tsi : Nat) (cfg : Config) (hc : cfg.maxCache < 2 ^ 63)
@@ -83,7 +84,7 @@ theorem cleanup_total (X : Interfaces) (tsi : Nat) (cfg : Config) (hc : cfg.maxC
   refine ⟨s', evs, ?_, hr⟩
   unfold cleanupWhole
   rw [h]
-  simp only [hasFault_false X s' (reachable_winv X cfg hc tsi s' hr).objs, Bool.false_eq_true, if_false]
+  simp only [hasFault_false X s' (reachable_winv X cfg hc tsi s' hr).objs (reachable_winv X cfg hc tsi s' hr).fobjs, Bool.false_eq_true, if_false]
 
 
 /-! ### the interfaces, discharged from the owners' theorems -/
@@ -101,6 +102,17 @@ def interfaces : Interfaces where
     cases f with
     | none => trivial
     | some e => exact hf e rfl
+  entry0_ok := fun q hq e he => by
+    unfold Full.fdtEntry0 at he
+    cases hf : q.fti with
+    | none => rw [hf] at he; cases he
+    | some x =>
+      obtain ⟨o, l⟩ := x
+      rw [hf] at he
+      simp only [Option.map_some, Option.some.injEq] at he
+      subst he
+      have := hq o l hf
+      exact ⟨this.1, fun o' ho' => by simp only [Option.some.injEq] at ho'; subst ho'; exact this.2⟩
   parsed_pkt_ok := fun d p h => by
     intro o l hfti
     have := (Flute.Props.C04.Wire.toPkt_ofAlc_facts d p h).2.2.2.2.2.2.2.2.2.2.2.2.2 o l hfti
@@ -145,6 +157,15 @@ theorem reachable_objects_healthy (tsi : Nat) (cfg : Config) (hc : cfg.maxCache 
     ∀ toi (o : Full.Obj), (toi, Sum.inr o) ∈ s.objects → o.fault = false ∧ ObjRecv.TInv o.st := by
   intro toi o hmem
   exact (reachable_winv interfaces cfg hc tsi s hs).objs (toi, .inr o) hmem
+
+/-- ... and so is the FDT object (TOI 0, since recv made it an `ObjRecv` object: `Full.push0`) inside every FDT-instance
+    receiver, under reception or current -/
+theorem reachable_fdt_objects_healthy (tsi : Nat) (cfg : Config) (hc : cfg.maxCache < 2 ^ 63) (s : State Full.Any)
+    (hs : Reachable interfaces tsi cfg s) :
+    (∀ kf ∈ s.fdtReceivers, ∀ o : Full.Obj, kf.2.obj = some (Sum.inr o) → o.fault = false ∧ ObjRecv.TInv o.st) ∧
+    (∀ f ∈ s.fdtCurrent, ∀ o : Full.Obj, f.obj = some (Sum.inr o) → o.fault = false ∧ ObjRecv.TInv o.st) := by
+  have hw := (reachable_winv interfaces cfg hc tsi s hs).fobjs
+  exact ⟨fun kf hkf o ho => hw.2 kf hkf _ ho, fun f hf o ho => hw.1 f hf _ ho⟩
 
 /-- non-vacuity: a history is admissible (garbage bytes, then a cleanup) and the state it reaches is `Reachable` -/
 example : ∃ s, Reachable interfaces 1 ⟨0, false, true, 1024, true, true⟩ s ∧ s.objects = [] := by
@@ -242,7 +263,8 @@ theorem dz_ring_new_and_read (pkt : List Nat) (hl : pkt.length < 2 ^ 62) :
 
 /-- the byte-level call of a `MultiReceiver` whose sessions are receivers with the FULL object model: no history of calls,
     no datagram makes it panic at the demultiplexing or at the session level (tsi's `multi_push_total`, instantiated).
-    The object-fault invariant of `push_data_total` is NOT threaded through the MultiRecv session table here. -/
+    The object-fault invariant of `push_data_total` is threaded through the MultiRecv session table in
+    Props/C04MultiWhole.lean (`multi_push_total_whole`, agent recv: `hasFault = false` in every session of the table). -/
 theorem multi_push_total_full (cfg : Config) (timeout : Nat) (b : Bool) (hist : List MultiRecv.BOp)
     (hhist : ∀ o ∈ hist, Flute.Props.C04.Multi.BOpOK o) (hlen : hist.length + 1 < 2 ^ 64) (ep : Flute.Endpoint)
     (d : List UInt8) (now : Int) (hn : TimeSane now) (ans : FdtAns) :
